@@ -96,6 +96,16 @@ class ProgGen:
                         x["a"] == "publishFactory" and x["name"] == e["name"] for x in earlier or []):
                     a["name"], a["ty2"] = e["name"], e["ty"]
                     fin = e["name"]
+            if "ty2" not in a and "slow" not in a and rng.random() < 0.25:
+                # … or a factory for two types that are both free
+                t2 = rng.choice([t for t in range(NT) if t != ty])
+                if (t2, fin) not in self.used:
+                    a["ty2"] = t2
+                    a["free2"] = True
+                    self.used.add((t2, fin))
+                    self.keys.append((t2, fin, i))
+            if "slow" not in a and rng.random() < 0.35:
+                a["annot"] = True       # no types= argument: they are read off the return annotation (a union for two)
             self.used.add((ty, fin))
             self.keys.append((ty, fin, i))
             if a.get("slow"):
@@ -341,7 +351,10 @@ class ProgGen:
         timeout = 10.0 ** 6
         if rng.random() < self.p_timeout:
             timeout = rng.randint(0, 14) + 0.5 if rng.random() < 0.85 else 0.0
-        return {"kind": "startup", "prog": self.prog, "timeout": timeout}
+        case = {"kind": "startup", "prog": self.prog, "timeout": timeout}
+        if timeout == 10.0 ** 6 and rng.random() < 0.5:
+            case["no_timeout"] = True       # start_component(..., timeout=None)
+        return case
 
 
 def valid_prog(prog: list[dict[str, Any]]) -> bool:
@@ -361,7 +374,7 @@ def valid_prog(prog: list[dict[str, Any]]) -> bool:
         for ph in ("prepare", "start"):
             acts = spec[ph] or []
             for n, a in enumerate(acts):
-                if a["a"] == "publishFactory" and "ty2" in a:
+                if a["a"] == "publishFactory" and "ty2" in a and not a.get("free2"):
                     if not any(b["a"] == "publish" and b["ty"] == a["ty2"] and b["name"] == a["name"] for b in acts[:n]):
                         return False
     return True
